@@ -440,3 +440,19 @@ def zero_settings(m, rng):
             "sha1crypt": ["$sha1$1$."], "sunmd5": ["$md5$", "$md5$rounds=1$"], "nt": ["$3$"],
             "bcrypt": ["$2b$04$" + "." * 22], "bcrypt_a": ["$2a$04$" + "." * 22], "bcrypt_x": ["$2x$04$" + "." * 22], "bcrypt_y": ["$2y$04$" + "." * 22],
             "yescrypt": ["$y$j65$", "$y$j65$...."], "gost_yescrypt": ["$gy$j65$", "$gy$j65$...."], "scrypt": ["$7$4/..../....", "$7$4/..../........"]}.get(m, [])
+
+
+def block_boundary_settings(m, rng):
+    """settings whose salt makes the salt-dependent message of the method's first keyed hash end at, just before or just
+    after a 64-byte block boundary (where implementations switch between a fast path and the generic one)"""
+    if m == "scrypt":
+        return ["$7$4/..../...." + salt(rng, n) for n in (51, 52, 57, 60, 63, 64, 116)]
+    if m in ("yescrypt", "gost_yescrypt"):
+        return [PREFIX[m] + "j65$" + ysalt(rng, n) for n in (43, 70, 80, 86)]          # 32, 52, 60, 64 salt bytes
+    if m == "sha1crypt":
+        return ["$sha1$20$" + salt(rng, n) for n in (46, 47, 48, 55, 56, 64)]          # salt + "$sha1$" + "20" = 54..56, 63, 64, 72
+    if m == "sunmd5":
+        return ["$md5$rounds=1$" + salt(rng, n) for n in (40, 41, 42, 50)]
+    if m in ("sha256crypt", "sha512crypt"):
+        return [PREFIX[m] + "rounds=1000$" + salt(rng, 16)]
+    return []
